@@ -556,14 +556,19 @@ def c13_corr(res, exe, driver, tier, seed, tmp):
     ocases = c13_oracle_cases(tier, seed)
     out, traces = run_spec_stream(res, exe, driver, ocases, tmp, "validate-spec", seed)
     kinds = eval_c13(res, traces, "validate-spec")
+    import p_direct
+    nd = p_direct.c13_direct(res, exe, driver, tier, seed, tmp)
     res.distribution.update({"verdicts_at_enter": kinds, "spec_alignment": alignment(traces),
-                             "validate_scripts": len(cases), "spec_scripts": len(ocases)})
+                             "validate_scripts": len(cases), "spec_scripts": len(ocases), "non_terminal_validator_cases": nd})
     res.rule = ("validate: random emacs/vi scripts with a scripted validator (## error, !! invalid+message, ?? invalid, trailing "
                 "backslash incomplete, ok valid+message) or the shipped MatchingBracketValidator, Enter / C-j / C-m anywhere in "
                 "the line, 1-2 reads, hints, narrow windows; compared with the extracted model (states before every key, results, "
                 "bytes). validate-spec: at every Enter the verdict is recomputed here from the observed text and the decision "
                 "table of the property is checked on what the implementation did (returned string = that text; LF at the cursor; "
-                "text and cursor kept and the message written; error returned).")
+                "text and cursor kept and the message written; error returned). direct-validate: non-terminal input (a child "
+                "with stdin a pipe) under the bracket matcher and the scripted validator: compared with the model of "
+                "readline_direct; every returned line is accepted by the validator, a validator error comes back as an error "
+                "exactly where the accumulated text makes the validator fail.")
     for c, impl, model, raw in out[:3]:
         res.samples.append({"keys": c.keys, "impl": " ## ".join(impl)[:400]})
 
